@@ -1,4 +1,4 @@
-\* ShardedMailbox AS IT IS (FixF3 = FALSE): TLC finds F3 - invariant C37_CloseWaits is violated (17 states).
+\* ShardedMailbox BEFORE /repo commit 4a6260676 (FixF3 = FALSE): TLC finds F3 - invariant C37_CloseWaits is violated (17 states).
 SPECIFICATION Spec
 CONSTANTS
   NP = 2
